@@ -8,7 +8,7 @@ import knotops as KO
 PID = 'C07'
 STATS = G.STATS
 PARTIAL = [
-    "split_pieces_coincide / decompose_pieces_coincide: the Lean theorem that each piece evaluates to the original under the affine map of its domain is not stated yet (ingredients proved: C04 insertion theorem, window locality and affine invariance of A2.2 in Lemmas/Locality.lean); checked by the exact oracle",
+    "curves, span level: proved (left / right piece = refined curve on the spans left / right of the split parameter; normalisation = affine domain map). Not proved: the end-to-end composition through splitDir / decomposeDir with searched spans and the closed end parameter, and surfaces; checked by the exact oracle",
 ]
 
 
